@@ -425,6 +425,12 @@ def run(res, tier, seed):
     for kind, t in trees:
         for c in range(0, len(cover), 120):
             execs.append((kind, t, cover[c:c + 120]))
+    # XML 1.1 line ends / restricted characters and copied raw text: the vectors that write XML (every version x indent x encoding x cdata)
+    xml_cover = [o for o in cover if o["method"] in ("xml", "none")]
+    for t in c08lib.line_trees():
+        for c in range(0, len(xml_cover), 120):
+            execs.append(("xmlish", t, xml_cover[c:c + 120]))
+    res.notes["line_end_trees"] = len(c08lib.line_trees())
     exe = vlib.build_harness("c08")
     known = {k["key"]: k for k in vlib.known_findings(PROP)}
     tot = {"cases": 0, "out": 0, "rejects": 0, "tv_states": 0, "fixed": fixed_keys()}
